@@ -255,8 +255,8 @@ func BuildRig(spec FanSpec, slot int, law RpmLaw, curve0 int) *Rig {
 			_ = os.Chmod(p, 0755)
 		}
 		script(set, "F="+pwmPath+"\nm=$(cat $F.wmode)\nif [ \"$m\" = 0 ]; then echo \"$1\" > $F; fi\necho \"$1:$(cat $F)\" >> $F.log\n[ \"$m\" = 1 ] && exit 1\nexit 0\n")
-		script(get, "F="+pwmPath+"\necho r >> $F.reads\ncase $(cat $F.rmode) in 1|2|5) exit 1;; 3) echo garbage; exit 0;; 4) exit 0;; esac\ncat $F\n")
-		script(rpm, "F="+pwmPath+"\nR="+rpmPath+"\necho r >> $R.reads\ncase $(cat $R.rmode) in 1|2|5) exit 1;; 3) echo garbage; exit 0;; 4) exit 0;; esac\nif [ $(cat $F) -ge $(cat $R.theta) ]; then cat $R.rpm; else echo 0; fi\n")
+		script(get, "F="+pwmPath+"\necho r >> $F.reads\ncase $(cat $F.rmode) in 1|2|5) exit 1;; 3) echo garbage; exit 0;; 4) exit 0;; 6) echo; exit 0;; 7) echo nan; exit 0;; 8) echo 65535; exit 0;; esac\ncat $F\n")
+		script(rpm, "F="+pwmPath+"\nR="+rpmPath+"\necho r >> $R.reads\ncase $(cat $R.rmode) in 1|2|5) exit 1;; 3) echo garbage; exit 0;; 4) exit 0;; 6) echo; exit 0;; 7) echo nan; exit 0;; 8) echo -1; exit 0;; esac\nif [ $(cat $F) -ge $(cat $R.theta) ]; then cat $R.rpm; else echo 0; fi\n")
 		cc := &configuration.CmdFanConfig{SetPwm: &configuration.ExecConfig{Exec: set, Args: []string{"%pwm%"}}, GetPwm: &configuration.ExecConfig{Exec: get}}
 		if !spec.NoRpm {
 			cc.GetRpm = &configuration.ExecConfig{Exec: rpm}
